@@ -491,6 +491,11 @@ func validateResultPath(repoDir, relPath string) (string, error) {
 	if info.IsDir() {
 		return "", fmt.Errorf("result path must be a file, not directory: %s", relPath)
 	}
+	if !info.Mode().IsRegular() {
+		// devices, FIFOs and sockets have no stable content to hash (and reading a FIFO would
+		// block while the store lock is held)
+		return "", fmt.Errorf("result path must be a regular file: %s", relPath)
+	}
 
 	return relPath, nil
 }
